@@ -72,27 +72,30 @@ def NextIs (s : SS) (j : Nat) : Prop := s.next = j ∨ (s.fields.length ≤ s.ne
 /-- `pushTupleElems` in continuation-passing style: the names presented so far are the first `j` field names -/
 def TupleBl (ext : Ext) (xs : SVals) : Prop :=
   ∀ {β : Type} (k : SS → R β) (S : List String) (path : String) (sfs : Fields) (s : SS) (j : Nat),
-    MidS path sfs s → NextIs s j → SeenIs s ((sfs.toList.map Field.name).take j) → vsizes ext xs ≤ roomL s.fields →
+    MidS path sfs s → NextIs s j → SeenIs s ((sfs.toList.map Field.name).take j) → vsizes ext xs + 1 ≤ roomL s.fields →
     (∀ q ∈ blameNth ext path (sfs.toList.drop j) xs, q ∈ S) →
-    (∀ s', MidS path sfs s' → SeenIs s' ((sfs.toList.map Field.name).take (j + xs.length)) → Blo S path (k s')) →
+    (∀ s', MidS path sfs s' → SeenIs s' ((sfs.toList.map Field.name).take (j + xs.length)) → 1 ≤ roomL s'.fields →
+      Blo S path (k s')) →
     Blo S path (pushTupleElems ext s xs >>= k)
 
 def FieldsBl (ext : Ext) (fields : SFields) : Prop :=
   ∀ {β : Type} (k : SS → R β) (S : List String) (path : String) (sfs : Fields) (s : SS) (done : List String),
-    MidS path sfs s → SeenIs s done → vsizef ext fields ≤ roomL s.fields →
+    MidS path sfs s → SeenIs s done → vsizef ext fields + 1 ≤ roomL s.fields →
     (dupKeys (done ++ knownKeys sfs.toList (fieldKeys fields)) = true → path ∈ S) →
     (∀ q ∈ blameFields ext path sfs.toList fields, q ∈ S) →
-    (∀ s', MidS path sfs s' → SeenIs s' (done ++ knownKeys sfs.toList (fieldKeys fields)) → Blo S path (k s')) →
+    (∀ s', MidS path sfs s' → SeenIs s' (done ++ knownKeys sfs.toList (fieldKeys fields)) → 1 ≤ roomL s'.fields →
+      Blo S path (k s')) →
     Blo S path (pushFields ext s fields >>= k)
 
 /-- `pushStructEntries`: additionally a key that is not a string is the struct's own failure -/
 def EntriesBl (ext : Ext) (es : SEntries) : Prop :=
   ∀ {β : Type} (k : SS → R β) (S : List String) (path : String) (sfs : Fields) (s : SS) (done : List String),
-    MidS path sfs s → SeenIs s done → vsizee ext es ≤ roomL s.fields →
+    MidS path sfs s → SeenIs s done → vsizee ext es + 1 ≤ roomL s.fields →
     (dupKeys (done ++ knownKeys sfs.toList (entryKeys es)) = true → path ∈ S) →
     ((keysAreStrings es).isOk = false → path ∈ S) →
     (∀ q ∈ blameEntriesStruct ext path sfs.toList es, q ∈ S) →
-    (∀ s', MidS path sfs s' → SeenIs s' (done ++ knownKeys sfs.toList (entryKeys es)) → Blo S path (k s')) →
+    (∀ s', MidS path sfs s' → SeenIs s' (done ++ knownKeys sfs.toList (entryKeys es)) → 1 ≤ roomL s'.fields →
+      Blo S path (k s')) →
     Blo S path (pushStructEntries ext s es >>= k)
 
 def MapEntriesBl (ext : Ext) (es : SEntries) : Prop :=
@@ -258,8 +261,8 @@ theorem seqLike_bl {ext : Ext} [ExtPlain ext] {xs : SVals} (hpe : ElemsBl ext xs
       refine struct_row_bl hg ha fun kk s hm hs hfs hnx hk => ?_
       refine hpt kk _ path sfs s 0 hm (.inl hnx) (by simpa using hs) (by rw [hfs]; omega)
         (fun q hq => mem_structS_inner q (by simpa using hq)) ?_
-      intro s' hm' hs'
-      refine hk s' hm' ?_
+      intro s' hm' hs' hr'
+      refine hk s' hm' ?_ hr'
       rw [knownKeys_positional]
       simpa using hs'
   | null _ _ | unknownVariant _ | leaf _ _ _ _ | bytes _ _ _ _ _ | bytesView _ _ _ _ _ | fixedSizeBinary _ _ _ _ _ _
